@@ -116,8 +116,8 @@ SAFE = {
     ('prophyc.generators.cpp_full:generate_struct_encode', 'd, dcpptype = delimiters[m.name]'): TUPLE2,
     ('prophyc.generators.cpp_full:generate_struct_encode', '_v0, _v1 = _v2[_v3.name]'): TUPLE2,
     ('prophyc.model:evaluate_sizes.evaluate_member_size', '_v0.byte_size, _v0.alignment = _v1'): TUPLE2,
-    ('prophyc.model:evaluate_sizes.evaluate_union_size', 'int((_v0.byte_size + _v0.alignment - 1) / _v0.alignment)'):
-        'int() of a finite float quotient cannot raise ValueError',
+    ('prophyc.model:evaluate_sizes.evaluate_union_size', 'ANY ValueError'):
+        'the only int() of the function converts a finite float quotient of sizes: it cannot raise ValueError (no string is converted here)',
     # every division of the two sizing functions divides by an alignment (an attribute `.alignment` of an evaluated member / node,
     # or the local maximum of such alignments): one reason for any spelling of the padding and round-up arithmetic
     ('prophyc.model:evaluate_sizes.evaluate_struct_size', r'DIVISOR ~ (^|\.)alignment$'): ALIGN,
